@@ -29,6 +29,14 @@ static bool IoFault(const InvRecord& r) {
 
 static bool NormalExit(const InvRecord& r) { return r.res.end == ProcResult::kExit; }
 
+static std::string HashCmdFor(const Scenario& sc, const Stmt& s) {
+  std::string c = sc.CommandLine(s);
+  std::string rc = sc.RspContent(s);
+  if (!rc.empty()) c += ";rspfile=" + rc;
+  return c;
+}
+
+
 // ------------------------------------------------------------------ C01
 void World::CheckContent(const InvRecord& r, const char* prop) {
   if (!r.ok() || r.external_edit || r.plan.dry || !r.plan.tool.empty()) return;
@@ -81,12 +89,6 @@ void World::CheckOrdering(const InvRecord& r) {
 }
 
 // ------------------------------------------------------------------ C05
-static std::string HashCmdFor(const Scenario& sc, const Stmt& s) {
-  std::string c = sc.CommandLine(s);
-  std::string rc = sc.RspContent(s);
-  if (!rc.empty()) c += ";rspfile=" + rc;
-  return c;
-}
 
 void World::CheckFailures(const InvRecord& r) {
   if (r.plan.dry || !r.plan.tool.empty()) return;
@@ -139,14 +141,17 @@ void World::CheckFailures(const InvRecord& r) {
         bool same = (b == r.log_before.last.end() && a == r.log_after.last.end()) ||
                     (b != r.log_before.last.end() && a != r.log_after.last.end() && b->second.hash == a->second.hash &&
                      b->second.mtime == a->second.mtime && b->second.start == a->second.start && b->second.end == a->second.end);
-        if (!same) Report("C05", "failure_logged", "build log gained a record for '" + o + "' although its command failed");
+        if (!same && a != r.log_after.last.end() && a->second.hash == NinjaCommandHash(HashCmdFor(sc, sc.stmts[f->stmt])))
+          Report("C05", "failure_logged", "build log gained a record for '" + o + "' although its command failed");
         auto db = r.deps_before.last.find(o), da = r.deps_after.last.find(o);
         bool dsame = (db == r.deps_before.last.end() && da == r.deps_after.last.end()) ||
                      (db != r.deps_before.last.end() && da != r.deps_after.last.end() && db->second.mtime == da->second.mtime && db->second.deps == da->second.deps);
         if (!dsame) Report("C05", "failure_logged", "deps log gained a record for '" + o + "' although its command failed");
       }
     }
-    if (r.epochs <= 1) {
+    // (the first record appended behind a torn tail merges with it: C08 allows
+    // that output to look out of date)
+    if (r.epochs <= 1 && !r.log_torn_tail_before) {
       for (const SpawnRec& x : r.spawns) {
         if (!x.reap_seq || x.reap_status != 0) continue;
         const Stmt& s = sc.stmts[x.stmt];
@@ -243,6 +248,69 @@ void World::CheckTermination(const InvRecord& r) {
 
 void World::CheckLimits(const InvRecord& r) { (void)r; }
 
+// ------------------------------------------------------------------ C07: the interrupted process itself
+void World::CheckInterrupt(const InvRecord& r) {
+  if (!r.interrupted || r.plan.dry || !r.plan.tool.empty()) return;
+  if (r.res.end != ProcResult::kExit && !(r.res.end == ProcResult::kCrashed && r.res.fired.count("killed_by_default_action"))) return;
+  if (IoFault(r) || r.res.fired.count("crash") || r.res.fired.count("torn_write")) return;
+  // did ninja see the signal while commands were running?
+  bool acted = r.res.out.find("interrupted by user") != std::string::npos || r.res.err.find("interrupted by user") != std::string::npos;
+  bool regen_running = false;
+  for (const SpawnRec& x : r.spawns) if (sc.stmts[x.stmt].regen && (x.killed || !x.reap_seq || MapStatus(x.reap_status) == 130)) regen_running = true;
+  bool any_running = false;
+  for (const SpawnRec& x : r.spawns) if (!x.reap_seq || x.killed) any_running = true;
+  if (!acted) {
+    // the signal arrived when nothing was in flight any more (or before the
+    // build loop): finishing normally or dying from the default action are both fine
+    return;
+  }
+  stats->nontrivial["C07"] = true;
+  stats->n["interrupt_handled"]++;
+  if (r.res.exit_code != 130) {
+    if (regen_running && r.res.exit_code == 1)
+      Report("C07", "regen_interrupt_status", "ninja interrupted while regenerating the manifest exited with status 1 instead of 130");
+    else
+      Report("C07", "interrupt_cleanup", "interrupted ninja exited with status " + S(r.res.exit_code) + " instead of 130");
+  }
+  if (r.lock_at_exit)
+    Report("C07", "interrupt_cleanup", "interrupted ninja left its lock file behind");
+  for (const SpawnRec& x : r.spawns) {
+    if (x.reap_seq && !x.killed && x.reap_status == 0) continue;   // finished normally before the interrupt
+    bool was_running = x.killed || !x.reap_seq || MapStatus(x.reap_status) == 130;
+    if (!was_running) continue;
+    // stopped: every running non-console command gets the signal
+    if (!x.console && !x.killed && r.alive_at_exit.count(x.pid))
+      Report("C07", "interrupt_cleanup", "statement " + S(x.stmt) + " was still running when the interrupted ninja exited and was never signalled");
+    if (r.plan.on_signal == 2) continue;   // a child that ignores the signal may write after ninja is gone
+    bool any_modified_left = false;
+    for (auto& o : x.outs) {
+      auto now = r.outs_at_exit.find(o);
+      auto pre = x.pre_outs.find(o);
+      if (now == r.outs_at_exit.end()) continue;   // absent: fine
+      if (x.deps_kind_depfile) {
+        Report("C07", "interrupt_cleanup", "statement " + S(x.stmt) + " has a depfile but its output '" + o + "' survived the interrupt");
+        continue;
+      }
+      bool same = pre != x.pre_outs.end() && pre->second.first == now->second.first && pre->second.second == now->second.second;
+      if (!same) any_modified_left = true;
+    }
+    if (any_modified_left)
+      Report("C07", "interrupt_cleanup", "an output of interrupted statement " + S(x.stmt) + " was modified by the command and not removed");
+    if (x.deps_kind_depfile && r.outs_at_exit.count(x.depfile) && !r.plan.keepdepfile)
+      Report("C07", "interrupt_cleanup", "depfile " + x.depfile + " of interrupted statement " + S(x.stmt) + " was not removed");
+    // no log record for it
+    for (auto& o : x.outs) {
+      auto b = r.log_before.last.find(o), a = r.log_after.last.find(o);
+      bool same = (b == r.log_before.last.end() && a == r.log_after.last.end()) ||
+                  (b != r.log_before.last.end() && a != r.log_after.last.end() && b->second.hash == a->second.hash && b->second.mtime == a->second.mtime && b->second.end == a->second.end);
+      // (a record merged with a crash-torn tail is garbage, not a claim of success: C08)
+      if (!same && a != r.log_after.last.end() && a->second.hash == NinjaCommandHash(HashCmdFor(sc, sc.stmts[x.stmt])))
+        Report("C07", "interrupt_cleanup", "the build log gained a record for '" + o + "' of an interrupted command");
+    }
+  }
+  (void)any_running;
+}
+
 // ------------------------------------------------------------------ C16 rspfile lifecycle
 void World::CheckRsp(const InvRecord& r) {
   if (!NormalExit(r) || r.interrupted || r.plan.dry || IoFault(r)) return;
@@ -270,6 +338,7 @@ void World::CheckAll(InvRecord& r) {
   CheckOrdering(r);
   CheckFailures(r);
   CheckRsp(r);
+  CheckInterrupt(r);
   CheckOutput(r);
   CheckContent(r, "C01");
 }
